@@ -3,7 +3,8 @@ the part anchored in name resolution, completion, class index, native types and 
 
 theorems : lean/GoldModel/Props/C17.lean (fold_sites_all, keys_folded, index_case, native_case,
            terminal_case, call_case, typeref_case, class_compare_harmless, evalEx_case,
-           occurrence_case_definition, occurrence_case_completion) + C10 `resolve_case`, C11 `complete_case`
+           occurrence_case_definition, occurrence_case_completion, recase_invariant_definition,
+           recase_invariant_completion) + C10 `resolve_case`, C11 `complete_case`
 tie      : E8_ScopeConsts (native keys, intrinsics, completion filters, fold sites are regenerated
            from the source on every run); correspondence `scope` on every re-cased variant
 oracle   : metamorphic, on the real implementation: the SAME workspace rendered with every keyword
@@ -41,7 +42,7 @@ def tree_shapes(ctx, cases, toks):
     for c, tk in zip(cases, toks):
         for t in tk:
             lines.append("parse " + " ".join(t))
-    outs = ctx.run_harness("parse", lines)
+    outs = scopelib.run_lines([core.HARNESS_BIN, "parse"], lines, chunk=400)
     res, k = [], 0
     for c, tk in zip(cases, toks):
         per = []
@@ -64,7 +65,7 @@ def run(ctx):
     ctx.assumptions += [
         "C17 is a conjunction over sites: lexer keyword table = C05 kw_any_case, symbol tables = C18 lookup_case, unused-variable / unpurged linters = C15/C16, self-parent guard and entity tree = C13/C14; this check covers tree shape, outline, definition and completion",
         "declarations are left as written; ASCII letters (str::to_uppercase is an arbitrary `norm` in the theorems, ASCII upper-casing in runs)",
-        "the model-level theorems re-case the request (identifier under the cursor and every name of its left operand); re-casing of references inside declarations (types, parents, uses) is covered by the metamorphic oracle and the correspondence, not by a theorem",
+        "recase_invariant_*: norm idempotent (proved for ASCII upper-casing: asciiUpper_idem), both workspaces WellFormedWs, no header names a parent that folds like the class itself (self-parent guard: C13/C14), position after the header; keywords are the lexer's business (C05)",
     ]
     ok_ex = ctx.extract(["E8_ScopeConsts"])
     if ctx.replay:
@@ -91,6 +92,18 @@ def run(ctx):
             fm.append(scopelib.value(b))
     ctx.log("%d workspaces x %d casings, %d requests" % (len(groups), len(groups[0]) if groups else 0, len(fc)))
     ctx.compare("scope(all casings)", fc, fi, fm, nontrivial=lambda c, a: bool(a))
+    # the re-cased renderings are re-casings in the sense of the theorem (`Gold.C17.Recased`: same
+    # canonical form) and meet its hypotheses: decided by the driver on the extracted workspaces
+    tok_by_id = {c.id: t for c, t in zip(flat, toks)}
+    rel_lines, rel_ids = [], []
+    for g in groups:
+        for v in g[1:]:
+            rel_lines.append(" ".join(["scoperel", v.id] + scopelib.file_words(g[0], tok_by_id[g[0].id]) + ["X"] + scopelib.file_words(v, tok_by_id[v.id])))
+            rel_ids.append(v.id)
+    rel = scopelib.run_lines([core.DRIVER_BIN], rel_lines)
+    bad_rel = [(i, r) for i, r in zip(rel_ids, rel) if r != "recased=true wf=true noselfparent=true"]
+    ctx.oblige("tie:every re-cased rendering satisfies Recased / WellFormedWs / NoSelfParent w.r.t. the as-written one (%d pairs)" % len(rel_lines),
+               not bad_rel, str(bad_rel[:3]))
     ctx.phase("oracle")
     ncmp = 0
     for g in groups:
